@@ -69,7 +69,7 @@ def plan(tier, seed):
        {'witness': 'schema_change_in_bundle'}]
   if tier == 'quick':
     return w + [{'hseed': seed * 100003 + i, 'steps': 130} for i in range(15)]
-  return w + [{'hseed': seed * 100003 + 7000 + i, 'steps': 420} for i in range(60)]
+  return w + [{'hseed': seed * 100003 + 7000 + i, 'steps': 320, 'max_rows': 45} for i in range(61)]
 
 
 # ------------------------------------------------------------------------------------------------
@@ -182,6 +182,7 @@ class Gen(object):
     self.prev = None               # (reply, kind) of the last bundle, if it can be undone
     self.nrename = 0
     self.nextra = 0
+    self.max_rows = None
 
   def ids(self, cfg):
     return {self.ref_role.get(ref, c['id']): c['id'] for ref, c in cfg.items()}
@@ -350,6 +351,9 @@ class Gen(object):
     """-> (kind, [user actions])"""
     rnd = self.rnd
     trig_refs = sorted(r for r, c in cfg.items() if is_trigger(c))
+    if self.max_rows and len(rows0) > self.max_rows and rnd.random() < 0.5:
+      # long histories (thorough tier): keep the table small, so that the cost per bundle stays flat
+      return 'remove', [['BulkRemoveRecord', 'T', sorted(rnd.sample(sorted(rows0), rnd.randint(3, 10)))]]
     x = rnd.random()
     acts = None
     if x < 0.30:
@@ -751,6 +755,7 @@ def run_shard(spec, acc):
   with EngineProc() as p:
     tref, roles = build_doc(p, rnd, acc)
     gen = Gen(rnd, tref, roles)
+    gen.max_rows = spec.get('max_rows')
     p.call('verif_trace', True)
     S0 = snapshot.take(p)
     for step in range(spec['steps']):
